@@ -7,9 +7,6 @@ import Proofs.ForkNameInj
 
 namespace Martian.ForkName
 
-def srcOk : Src → Prop
-  | .keys ks => ks.Nodup
-  | _ => True
 
 theorem nodup_map_of_inj_on {α β : Type} (f : α → β) : ∀ (l : List α), l.Nodup →
     (∀ a ∈ l, ∀ b ∈ l, f a = f b → a = b) → (l.map f).Nodup := by
